@@ -344,13 +344,15 @@ pub fn op_blind_proof_gen<CS: BbsCiphersuite, const L: usize, const M: usize, co
     kani::cover!(r.is_ok() || r.is_err(), "blind_proof_gen returned");
 }
 
-/// update_signature: arbitrary signature, any `update_index: usize`; `n` is N or (BIG) usize::MAX
-pub fn op_update<CS: BbsCiphersuite, const N: usize, const BIG: bool>() {
+/// update_signature: arbitrary signature; `update_index` = UI (usize::MAX - k encoded as UIMAXK = k + 1,
+/// 0 = use UI); `n` is N or (BIG) usize::MAX.  A symbolic update_index makes Kani 0.68 report a
+/// spurious invalid pointer in Vec::push and prune the path, hence concrete boundary values.
+pub fn op_update<CS: BbsCiphersuite, const N: usize, const BIG: bool, const UI: usize, const UIMAXK: usize>() {
     init_stubs(N + 1);
     let sk = any_sk();
     let sig_raw = any_sig_bytes();
     let sig = Signature::<BBSplus<CS>>::from_bytes(&sig_raw).unwrap();
-    let ui: usize = kani::any();
+    let ui: usize = if UIMAXK > 0 { usize::MAX - (UIMAXK - 1) } else { UI };
     let n: usize = if BIG { usize::MAX } else { N };
     let o: [u8; 1] = kani::any();
     let w: [u8; 1] = kani::any();
